@@ -585,6 +585,9 @@ func RunMapInitExpr(ctx *Task, expr *ast.MapLiteral) (any, ast.DType, *errchain.
 // }
 
 func RunIndexExprGet(ctx *Task, expr *ast.IndexExpr) (any, ast.DType, *errchain.PlError) {
+	if expr.Obj == nil { // object-less form .[i]: there is nothing to index
+		return nil, ast.Invalid, NewRunError(ctx, "index expression without object", ast.NodeStartPos(ast.WrapIndexExpr(expr)))
+	}
 	key := expr.Obj.Name
 
 	varb, err := ctx.GetKey(key)
@@ -905,6 +908,9 @@ func RunAssignmentExpr(ctx *Task, expr *ast.AssignmentExpr) (any, ast.DType, *er
 				"unsupported op", expr.OpPos)
 		}
 	case ast.TypeIndexExpr:
+		if LHS.IndexExpr().Obj == nil { // object-less form .[i]
+			return nil, ast.Invalid, NewRunError(ctx, "index expression without object", LHS.StartPos())
+		}
 		switch expr.Op {
 		case ast.EQ:
 			varb, err := ctx.GetKey(LHS.IndexExpr().Obj.Name)
